@@ -2,10 +2,13 @@
 //! (C16 C17 C18 C20): grammar-directed schema generation, layout / content / edit families,
 //! against the structural reading of the source text and the front end's own round trips.
 
+mod c16;
 mod c17;
 mod c18;
 mod c20;
+mod c20b;
 mod catalogue;
+mod corpus;
 mod extract;
 mod front;
 mod gen;
@@ -28,6 +31,7 @@ fn main() {
     }
     let tier = Tier::parse(&args[2]).unwrap_or_else(|| mcx::machinery("bad tier"));
     match args[1].as_str() {
+        "C16" => c16::run(tier),
         "C17" => c17::run(tier),
         "C18" => c18::run(tier),
         "C20" => c20::run(tier),
@@ -39,6 +43,9 @@ fn replay(path: &str) -> ! {
     let text = std::fs::read_to_string(path).unwrap_or_else(|e| mcx::machinery(format!("{path}: {e}")));
     let v: serde_json::Value = serde_json::from_str(&text).unwrap_or_else(|e| mcx::machinery(format!("{path}: {e}")));
     let prop = v["property"].as_str().unwrap_or("");
+    if prop == "C16" {
+        c16::replay(path);
+    }
     let w = &v["witness"];
     match prop {
         "C17" => c17::replay(w),
